@@ -304,8 +304,23 @@ func newEnv() *tenv {
 
 func eventsString(evs []kafka.VerifEvent) string {
 	var out []string
+	// the recorder is process-wide: goroutines of an earlier case that are still winding down may emit events about
+	// connections this recording never saw being created — keep only connections / groups introduced by a T.New here
+	conns, groups := map[string]bool{}, map[string]bool{}
 	for _, e := range evs {
-		if !strings.HasPrefix(e.Kind, "T.") {
+		if e.Kind == "T.New" && len(e.Args) >= 2 {
+			conns[e.Args[0]], groups[e.Args[1]] = true, true
+		}
+	}
+	for _, e := range evs {
+		if !strings.HasPrefix(e.Kind, "T.") || len(e.Args) == 0 {
+			continue
+		}
+		if e.Kind == "T.CloseIdle" {
+			if !groups[e.Args[0]] {
+				continue
+			}
+		} else if !conns[e.Args[0]] {
 			continue
 		}
 		out = append(out, strings.ReplaceAll(e.Kind+":"+strings.Join(e.Args, ":"), " ", "_"))
